@@ -92,9 +92,43 @@ class _Continue(Exception):
 class Arr:
   """1-D integer numpy array, element-wise arithmetic"""
 
-  def __init__(self, xs, mask=False):
-    self.xs = list(xs)
+  def __init__(self, xs, mask=False, root=None, idx=None):
     self.is_mask = mask     # boolean array (result of a comparison)
+    # a basic slice of an array is a VIEW: it reads and writes the memory of
+    # the array it was taken from (`lam_pos = lam[:k]; lam_pos[i] -= a`)
+    self.root = root
+    self.idx = idx
+    if root is None:
+      self._xs = list(xs)
+
+  @property
+  def xs(self):
+    if self.root is None:
+      return self._xs
+    return [self.root._xs[i] for i in self.idx]
+
+  @xs.setter
+  def xs(self, v):
+    v = list(v)
+    if self.root is None:
+      self._xs = v
+    else:
+      if len(v) != len(self.idx):
+        raise ValueError('view length')
+      for i, x in zip(self.idx, v):
+        self.root._xs[i] = x
+
+  def setitem(self, k, v):
+    if self.root is None:
+      self._xs[k] = v
+    else:
+      self.root._xs[self.idx[k]] = v
+
+  def view(self, sl):
+    """the view selected by a slice object"""
+    root = self if self.root is None else self.root
+    base_idx = list(range(len(self._xs))) if self.root is None else self.idx
+    return Arr((), mask=self.is_mask, root=root, idx=base_idx[sl])
 
   def __len__(self):
     return len(self.xs)
@@ -232,6 +266,27 @@ class Interp:
     if isinstance(s, ast.AugAssign):
       cur = self.ev(_load(s.target))
       v = self.binop(s.op, cur, self.ev(s.value), s)
+      # `x op= y` on an array / list updates the object in place: every other
+      # name of it (an alias, the caller's variable when x is a parameter)
+      # sees the change
+      if isinstance(cur, Arr) and isinstance(v, Arr) and v is not cur and \
+              len(v) == len(cur):
+        cur.xs = v.xs
+        v = cur
+      elif isinstance(cur, list) and isinstance(v, list) and v is not cur \
+              and isinstance(s.op, ast.Add):
+        cur[:] = v
+        v = cur
+      elif v is not cur and isinstance(s.target, ast.Name) and \
+              not isinstance(cur, (int, Fraction, str, tuple, bool, float,
+                                   type(None))):
+        others = [k for k, x in self.env.items()
+                  if x is cur and k != s.target.id]
+        if others or id(cur) in getattr(self, 'arg_ids', ()):
+          raise Undecided('in-place update %s of an object that has another '
+                          'name (%s): aliasing is not modelled for this value'
+                          % (ast.unparse(s)[:40], ', '.join(others) or
+                             'the caller\'s argument'))
       self.assign(s.target, v, s)
       return
     if isinstance(s, ast.If):
@@ -382,13 +437,25 @@ class Interp:
           vals = [v] * sum(idx.xs)
         for k_, m_ in enumerate(idx.xs):
           if m_:
-            base.xs[k_] = vals.pop(0)
+            base.setitem(k_, vals.pop(0))
         return
       if isinstance(base, (list, Arr)) and _is_int(idx):
         xs = base if isinstance(base, list) else base.xs
         if not -len(xs) <= idx < len(xs):
           raise Raised(['IndexError'], node)
-        xs[idx] = v
+        if isinstance(base, Arr):
+          base.setitem(idx % len(xs), v)
+        else:
+          xs[idx] = v
+        return
+      if isinstance(base, Arr) and isinstance(idx, slice) and all(
+              x is None or _is_int(x)
+              for x in (idx.start, idx.stop, idx.step)):
+        tgt = base.view(idx)
+        vals = list(v.xs) if isinstance(v, Arr) else [v] * len(tgt)
+        if len(vals) != len(tgt):
+          raise Raised(['ValueError'], node)
+        tgt.xs = vals
         return
       r = self.world.store(self, base, idx, v, node)
       if r is NotImplemented:
@@ -750,7 +817,7 @@ class Interp:
       if isinstance(idx, slice) and all(
               x is None or _is_int(x)
               for x in (idx.start, idx.stop, idx.step)):
-        return Arr(base.xs[idx])
+        return base.view(idx)
       if isinstance(idx, Arr) and len(idx) == len(base) and \
               all(x in (0, 1) for x in idx.xs) and \
               getattr(idx, 'is_mask', False):
@@ -869,6 +936,7 @@ class Interp:
       if nm not in env or nm not in list(names[:len(args)]) + list(kwargs):
         env.setdefault(nm, self.ev(dv))
     sub = Interp(self.repo, self.func, self.world, ())
+    sub.arg_ids = set(id(x) for x in list(args) + list(kwargs.values()))
     sub.depth = depth + 1
     sub.fuel = self.fuel
     sub.choices = self.choices
@@ -911,6 +979,7 @@ class Interp:
     if any(nm not in env for nm in names):
       raise Raised(['TypeError'], node)
     sub = Interp(self.repo, g, self.world, ())
+    sub.arg_ids = set(id(x) for x in env.values())
     sub.depth = depth + 1
     sub.fuel = self.fuel
     sub.choices = self.choices
@@ -1035,6 +1104,14 @@ class Interp:
         return abs(args[0])
       if vec(args[0]) is not None:
         return Arr(abs(x) for x in vec(args[0]))
+    if short == 'copyto' and len(args) == 2 and isinstance(args[0], Arr) \
+            and not kwargs:
+      src = args[1]
+      vals = list(src.xs) if isinstance(src, Arr) else (
+          [src] * len(args[0]) if _is_num(src) else None)
+      if vals is not None and len(vals) == len(args[0]):
+        args[0].xs = vals
+        return None
     if short == 'flatnonzero' and len(args) == 1 and \
             isinstance(args[0], Arr):
       return Arr(i for i, x in enumerate(args[0].xs) if x)
@@ -1096,7 +1173,7 @@ class Interp:
           else:
             res.append(out.xs[k_])
         if isinstance(out, Arr):
-          out.xs[:] = res
+          out.xs = res
           return out
         return Arr(res)
     if short in ('any', 'all') and len(args) == 1 and vec(args[0]) is not None:
@@ -1220,8 +1297,10 @@ class Interp:
         if all(_is_int(x) for x in recv.xs) and not recv.is_mask:
           raise Undecided('astype(%r) of an integer vector' % (t,))
         raise Undecided('astype(%r)' % (t,))
-      if attr in ('copy', 'ravel', 'flatten'):
-        return Arr(recv.xs)
+      if attr == 'ravel' or (attr == 'reshape' and args in ([-1], [(-1,)])):
+        return recv.view(slice(None, None, None))    # a view of 1-D data
+      if attr in ('copy', 'flatten'):
+        return Arr(recv.xs, mask=recv.is_mask)
       if attr in ('all', 'any') and not args and not kwargs:
         return (all if attr == 'all' else any)(bool(x) for x in recv.xs)
       if attr == 'tolist':
